@@ -8,5 +8,7 @@ CONSTANTS
   BugFirstWins = FALSE
   AllowNumericDocKeys = FALSE
   BugOkWithoutAddr = FALSE
-INVARIANTS WellFormed Resp2Typed LastWins Unambiguous RulesTotal RedirectHasAddr EmitCase
+  BugU64ViaI64 = FALSE
+  BugCompKeepsRule = FALSE
+INVARIANTS WellFormed Resp2Typed LastWins Unambiguous RulesTotal RedirectHasAddr NumRanges CompNeverValue EmitCase
 CHECK_DEADLOCK FALSE
